@@ -238,7 +238,8 @@ func init() {
 			b = append(b, same(n(tier, 1, 3), Batch{Mode: "loopback", Timeout: 30 * time.Minute, Procs: 8})...)
 			b = append(b, Batch{Mode: "race", Race: true, Timeout: 30 * time.Minute, Procs: 8})
 			// a discovery after a call that could not open its socket on a fixed bind port (port-queue phase of C09's workload)
-			return append(b, Batch{Mode: "port-queue", RunAs: "C09", Keys: []string{"hang", "panic"}, Timeout: 20 * time.Minute, Procs: 8})
+			// ... and a discovery that has to wait its turn for a fixed bind port which another client holds through the wildcard address
+			return append(b, Batch{Mode: "port-queue", RunAs: "C09", Keys: []string{"hang", "not-served-in-turn:discovery", "panic"}, Timeout: 20 * time.Minute, Procs: 8})
 		}}
 }
 
